@@ -536,11 +536,18 @@ def check_main(prop, tier, seed, only=None, nshard=None, verbose=True):
             for k in range(ns):
                 out = os.path.join(rundir, "w_%s_%s_%d.json" % (variant, names[0], k))
                 cmd = [_python(), "-m", "cpverif.runner", "--worker", prop, tier, str(seed), str(k), str(nshard), out] + names
+                errf = open(out + ".stderr", "w")
                 p = subprocess.Popen(cmd, env=_env_for(variant, libdirs[variant]), cwd=VERIF,
-                                     stdout=subprocess.DEVNULL, stderr=subprocess.PIPE, text=True)
+                                     stdout=subprocess.DEVNULL, stderr=errf, text=True)
                 procs.append((p, out, k))
+            hung = _wait_workers(procs, tier)
             for p, out, k in procs:
-                _, err = p.communicate()
+                try:
+                    err = open(out + ".stderr").read()
+                except OSError:
+                    err = ""
+                if k in hung:
+                    err += "\nHUNG: no progress on the case in flight for %d s; worker killed" % hung[k]
                 res = None
                 if os.path.exists(out):
                     res = json.load(open(out))
@@ -588,7 +595,8 @@ def check_main(prop, tier, seed, only=None, nshard=None, verbose=True):
         err = c["stderr"]
         is_san = ("AddressSanitizer" in err) or ("runtime error:" in err) or c["returncode"] < 0
         if cur is not None and is_san:
-            kind = "asan" if "AddressSanitizer" in err else ("ubsan" if "runtime error:" in err else "signal%d" % (-c["returncode"]))
+            kind = "asan" if "AddressSanitizer" in err else ("ubsan" if "runtime error:" in err else (
+                "hang" if "HUNG:" in err else "signal%d" % (-c["returncode"])))
             where = ""
             for line in err.splitlines():
                 if "/src/" in line and (" in " in line):
@@ -706,6 +714,35 @@ def check_main(prop, tier, seed, only=None, nshard=None, verbose=True):
             print("HARNESS-ERROR " + h, file=sys.stderr)
         return 2
     return 0
+
+
+def _wait_workers(procs, tier):
+    """Wait for all workers; a worker that makes no progress on the case in flight (journal file not
+    rewritten) for VERIF_HANG_S seconds (default 900 quick / 5400 thorough) is killed and reported: a heap-corrupting
+    change can deadlock inside malloc instead of crashing."""
+    hang_s = float(os.environ.get("VERIF_HANG_S", "900" if tier == "quick" else "5400"))
+    t_start = time.time()
+    hung = {}
+    alive = {k: (p, out) for p, out, k in procs}
+    while alive:
+        for k in list(alive):
+            p, out = alive[k]
+            if p.poll() is not None:
+                del alive[k]
+                continue
+            try:
+                last = os.path.getmtime(out + ".cur")
+            except OSError:
+                last = t_start
+            idle = time.time() - max(last, t_start)
+            if idle > hang_s:
+                p.kill()
+                p.wait()
+                hung[k] = int(idle)
+                del alive[k]
+        if alive:
+            time.sleep(0.5)
+    return hung
 
 
 def _drain_replays(procs, prop, known, violations, harness_errors, known_reproduced):
